@@ -5,7 +5,8 @@ from vf.core import Suite, coq_list, coq_bool
 from vf.gen import pick_weighted
 
 ID = "C21"
-THEOREMS = ["C21_checker_sound", "C21_setobj_safe", "C21_packwrite_safe", "C21_rmref_safe",
+THEOREMS = ["C21_checker_sound", "C21_setobj_safe", "C21_packwrite_safe", "C21_rmref_safe", "C21_packrefs_safe",
+            "C21_prune_safe", "C21_repack_safe", "C21_sequence",
             "C21_setref_refuted", "C21_setref_partial", "C21_casref_refuted", "C21_casref_partial",
             "C21_setindex_refuted", "C21_setindex_partial", "C21_setconfig_refuted", "C21_setconfig_partial",
             "C21_setshallow_refuted", "C21_setshallow_partial"]
